@@ -1192,6 +1192,7 @@ func (repo *Repository) load(ctx context.Context, depth int) error {
 
 	branches := make(Branches, 0, indexCount)
 	pruneHeight := -1
+	pruneHeightSet := false
 	for i := uint32(0); i < indexCount; i++ {
 		hash := &bitcoin.Hash32{}
 		if err := hash.Deserialize(indexBuf); err != nil {
@@ -1203,8 +1204,9 @@ func (repo *Repository) load(ctx context.Context, depth int) error {
 			return errors.Wrapf(err, "branch %s", hash)
 		}
 
-		if pruneHeight == -1 { // use height of first branch since it is the longest
+		if !pruneHeightSet { // use height of first branch since it is the longest
 			pruneHeight = branch.Height() - depth
+			pruneHeightSet = true
 		}
 
 		if branch.Height() < pruneHeight {
